@@ -126,6 +126,8 @@ def _overlapping_numeric_union(shape):
         num = [m[0] for m in shape[1:] if m[0] in ("int", "float", "posint", "nnfloat", "unit")]
         if len(num) >= 2 and set(num) & {"posint", "nnfloat", "unit"}:
             return True
+        if {"dict", "dictint"} <= {m[0] for m in shape[1:]}:
+            return True  # in a document the keys of an int-keyed dict are strings: it reads as the str-keyed member as well
         # Optional[...] members are unions as well
     return any(_overlapping_numeric_union(x) for x in subs)
 
